@@ -393,3 +393,90 @@ def canaries_hash(programs):
         Q.note = "CANARY (oracle swaps the tags of two variants) of " + P.pid
         out.append(Q)
     return out
+
+
+# ---------------------------------------------------------------------------------
+# C07
+CLONE_METHODS = ["crate::m::clone_a", "crate::m::clone_b"]
+
+
+def clone_field(name, a, form, i, generics, slot):
+    sem = {"method": CLONE_METHODS[i % 2] if a == "m" else None}
+    if a == "m":
+        ty = "u8"
+    else:
+        ty = "T%d" % slot
+        if ty not in generics:
+            generics.append(ty)
+    sp = ("Clone(%s)" % spell_param("method", sem["method"], form)) if sem["method"] else None
+    return Field(name, ty, attrs=[sp] if sp else [], clone=sem)
+
+
+def clone_program(pid, kind, name, variants, generics, copy, note, form):
+    traits = ["Clone", "Copy"] if copy else ["Clone"]
+    if form % 3 == 0:
+        traits.reverse()
+    P = Program(pid, kind, name, variants, traits, generics=sorted(generics),
+                inst={g: "crate::m::Ctr<%s>" % g[1:] for g in generics}, focus={"Clone"}, note=note, clone={"copy": copy})
+    if copy:
+        P.tags["verus_also"] = ["Copy"]
+    return P
+
+
+def c07(tier, seed):
+    rnd = random.Random(seed)
+    c = Counter()
+    out = []
+    form = 0
+    maxn = 3 if tier == "quick" else 5
+    for shape in ("named", "tuple"):
+        for n in range(0, maxn + 1):
+            for assign in itertools.product("nm", repeat=n):
+                for copy in (False, True):
+                    if copy and "m" in assign:
+                        continue
+                    form += 1
+                    generics = []
+                    names = HOSTILE if form % 4 == 0 else NAMES
+                    # two fields may share one type parameter: only position tells them apart
+                    fields = [clone_field(names[i] if shape == "named" else None, a, form + i, i, generics, i if form % 3 else i // 2)
+                              for i, a in enumerate(assign)]
+                    out.append(clone_program(c.pid(), "struct", "S", [Variant(None, shape, fields)], generics, copy,
+                                             "struct %s clone=%s copy=%s" % (shape, "".join(assign) or "-", copy), form))
+    out.append(clone_program(c.pid(), "struct", "S", [Variant(None, "unit", [])], [], False, "unit struct", 1))
+    out.append(clone_program(c.pid(), "struct", "S", [Variant(None, "unit", [])], [], True, "unit struct copy", 2))
+    kinds = {"u": ("unit", 0), "t1": ("tuple", 1), "t2": ("tuple", 2), "n2": ("named", 2), "n3": ("named", 3), "t3": ("tuple", 3)}
+    combos = [(a,) for a in ("u", "t1", "t2", "n2")] + list(itertools.product(("u", "t1", "t2", "n2"), repeat=2))
+    combos += [("u", "t1", "n2"), ("t2", "t2", "u"), ("n2", "n2", "n2"), ("u", "u", "u"), ("t1", "t1", "t1"), ("n2", "u", "t2"),
+               ("t1", "n2", "t2"), ("t2", "u", "n2"), ("n2", "t1", "u"), ("u", "t2", "t1"), ("n3", "t3", "u"), ("t1", "t1", "t1", "t1")]
+    if tier != "quick":
+        combos += [tuple(rnd.choice(list(kinds)) for _ in range(rnd.choice((3, 4, 5)))) for _ in range(80)]
+    for ci, combo in enumerate(combos):
+        for copy in (False, True):
+            form += 1
+            generics, variants, pos = [], [], 0
+            for vi, k in enumerate(combo):
+                kind, m = kinds[k]
+                fs = []
+                for j in range(m):
+                    pos += 1
+                    a = "m" if (not copy and (pos + ci) % 3 == 0) else "n"
+                    fs.append(clone_field(NAMES[j] if kind == "named" else None, a, form + pos, pos, generics, (j + vi) % 3))
+                variants.append(Variant("V%d" % vi, kind, fs))
+            out.append(clone_program(c.pid(), "enum", "E", variants, generics, copy, "enum %s copy=%s" % ("/".join(combo), copy), form))
+    return out
+
+
+def canaries_clone(programs):
+    out = []
+    picks = [p for p in programs if p.kind == "struct" and len(p.variants[0].fields) >= 2 and not p.s("clone", "copy")
+             and any(f.s("clone", "method") for f in p.variants[0].fields)]
+    for P in picks[:1] + picks[-1:]:
+        Q = P.clone(); Q.pid = P.pid + "_canary"; Q.canary_of = P.pid
+        for f in Q.variants[0].fields:
+            if f.s("clone", "method"):
+                f.sem["clone"] = {"method": "crate::m::clone_b" if f.s("clone", "method").endswith("_a") else "crate::m::clone_a"}
+                break
+        Q.note = "CANARY (oracle expects the other clone method) of " + P.pid
+        out.append(Q)
+    return out
